@@ -241,3 +241,34 @@ func mkByteChar(code *Term) *Term {
 	t.K = "byte"
 	return t
 }
+
+// fixedAtoms returns the character atoms of t when t is a fixed-length character sequence.
+func fixedAtoms(t *Term) ([]strAtom, bool) {
+	if s, ok := t.StrVal(); ok {
+		as := make([]strAtom, len(s))
+		for i := 0; i < len(s); i++ {
+			as[i] = strAtom{c: s[i]}
+		}
+		return as, true
+	}
+	if !hasStructure(t) {
+		return nil, false
+	}
+	parts := strPartsOf(t)
+	if len(parts) == 1 && parts[0].v == nil {
+		return parts[0].atoms, true
+	}
+	return nil, false
+}
+
+func atomsToTerm(as []strAtom) *Term {
+	var r *Term = mkStr("")
+	for _, a := range as {
+		if a.code == nil {
+			r = tStrConcat(r, mkStr(string([]byte{a.c})))
+		} else {
+			r = tStrConcat(r, mkByteChar(a.code))
+		}
+	}
+	return r
+}
